@@ -441,3 +441,186 @@ def log_run(chk):
 def log_replay(chk, path):
     chk.level = "exploration"
     log_validate(chk, [log_event_to_script(e) for e in replay_events(path)], "replay")
+
+
+# ----------------------------------------------------------------------------------------------------
+# C38  update metadata
+def upd_event_to_script(e):
+    if e.get("kind"):
+        return "gen kind=%s depth=%d src=%s" % (e["kind"], e["depth"], e.get("src", "replay"))
+    return "parse doc=%s src=%s" % (HEX(bytes(e.get("doc", []))), e.get("src", "replay"))
+
+
+def upd_jstr(rng, cps):
+    """JSON source of a string with the given code points, each written raw or escaped (never a lone surrogate)"""
+    out = []
+    short = {0x22: '\\"', 0x5C: "\\\\", 0x2F: "\\/", 8: "\\b", 12: "\\f", 10: "\\n", 13: "\\r", 9: "\\t"}
+    for cp in cps:
+        r = rng.random()
+        if cp in short and (r < 0.7 or cp != 0x2F):
+            out.append(short[cp] if r < 0.85 or cp < 0x20 or cp in (0x22, 0x5C) else chr(cp))
+            if cp < 0x20 and r >= 0.85:
+                out[-1] = "\\u%04x" % cp
+        elif cp < 0x20 or r < 0.4:
+            if cp >= 0x10000:
+                v = cp - 0x10000
+                fmt = "\\u%04x\\u%04x" if rng.random() < 0.5 else "\\u%04X\\u%04X"
+                out.append(fmt % (0xD800 + (v >> 10), 0xDC00 + (v & 0x3FF)))
+            else:
+                out.append(("\\u%04x" if rng.random() < 0.5 else "\\u%04X") % cp)
+        else:
+            out.append(chr(cp))
+    return '"' + "".join(out) + '"'
+
+
+def upd_rand_cps(rng):
+    cps = []
+    for _ in range(rng.choice([0, 1, 1, 2, 3, 5, 12])):
+        r = rng.random()
+        if r < 0.2:
+            cps.append(rng.choice([0x22, 0x5C, 0x2F, 8, 12, 10, 13, 9]))
+        elif r < 0.3:
+            cps.append(rng.randrange(0, 0x20))
+        elif r < 0.55:
+            cps.append(rng.randrange(0x20, 0x7F))
+        elif r < 0.8:
+            cps.append(rng.choice([0x7F, 0x80, 0xE9, 0x7FF, 0x800, 0x20AC, 0xD7FF, 0xE000, 0xFFFF, 0x10000, 0x1F600, 0x1F601, 0x10FFFF]))
+        else:
+            cp = rng.randrange(0x80, 0x110000)
+            cps.append(cp if not 0xD800 <= cp <= 0xDFFF else 0x1F600)
+    return cps
+
+
+def upd_random_doc(rng):
+    ws = lambda: rng.choice(["", "", "", " ", "\n", "\r\n\t "])
+
+    def val(depth):
+        r = rng.random()
+        if depth > 0 and r < 0.25:
+            return "[" + ",".join(val(depth - 1) for _ in range(rng.randrange(0, 4))) + "]"
+        if depth > 0 and r < 0.45:
+            n = rng.randrange(0, 4)
+            return "{" + ",".join('"k%d":%s' % (i, val(depth - 1)) for i in range(n)) + "}"
+        if r < 0.6:
+            return rng.choice(["0", "-1", "1.5", "1e9", "-2.5E-3", "12345678901234567890", "0.0", "1E+2"])
+        if r < 0.7:
+            return rng.choice(["true", "false", "null"])
+        return upd_jstr(rng, upd_rand_cps(rng))
+
+    members = []
+    for f in ("version", "tag", "commit", "channel", "generated_at"):
+        r = rng.random()
+        if r < 0.9:
+            members.append('"%s"%s:%s%s' % (f, ws(), ws(), upd_jstr(rng, upd_rand_cps(rng))))
+        elif r < 0.95:
+            members.append('"%s":%s' % (f, rng.choice(["1", "null", "[]", "{}"])))
+    if rng.random() < 0.7:
+        members.append('"notes_url":%s' % (upd_jstr(rng, upd_rand_cps(rng)) if rng.random() < 0.9 else "null"))
+    plats = []
+    for i in range(rng.choice([0, 1, 1, 2, 3])):
+        inner = []
+        if rng.random() < 0.93:
+            inner.append('"url":%s' % upd_jstr(rng, upd_rand_cps(rng)))
+        for f in ("arch", "format", "sha256"):
+            r = rng.random()
+            if r < 0.6:
+                inner.append('"%s":%s' % (f, upd_jstr(rng, upd_rand_cps(rng))))
+            elif r < 0.7:
+                inner.append('"%s":%s' % (f, rng.choice(["7", "null", "[1]"])))
+        rng.shuffle(inner)
+        name = upd_jstr(rng, [ord(c) for c in "p%d" % i] + upd_rand_cps(rng)[:3])
+        plats.append("%s:%s" % (name, "{" + ("," + ws()).join(inner) + "}" if rng.random() < 0.92 else rng.choice(['"str"', "3"])))
+    if rng.random() < 0.95:
+        members.append('"downloads":%s{%s}' % (ws(), ",".join(plats)))
+    if rng.random() < 0.5:
+        members.append('"extra%d":%s' % (rng.randrange(100), val(rng.choice([1, 2, 4, 12]))))
+    rng.shuffle(members)
+    doc = (ws() + "{" + ws() + ("," + ws()).join(members) + ws() + "}" + ws()).encode("utf-8")
+    r = rng.random()
+    if r < 0.15:
+        doc = doc[:rng.randrange(0, len(doc) + 1)]
+    elif r < 0.22 and doc:
+        j = rng.randrange(len(doc))
+        doc = doc[:j] + bytes([rng.choice([0x22, 0x5C, 0x7B, 0x7D, 0x5B, 0x5D, 0x2C, 0x3A, 0x2D, 0x30, rng.randrange(256)])]) + doc[j + 1:]
+    elif r < 0.27 and doc:
+        j = rng.randrange(len(doc))
+        doc = doc[:j] + doc[j + 1:]
+    elif r < 0.30:
+        doc = doc + rng.choice([b"x", b"{", b"]", b"\x00", b" 1"])
+    return doc
+
+
+UPD_EDGE = [b"{", b"[", b"-", b"-0", b"1.", b"1e", b"1e+", b'"', b'"\\', b'"\\u', b'"\\u12', b'"\\ud83d', b'"\\ud83d\\', b'"\\ud83d\\u', b"t", b"tru", b"nul",
+            b"{\"a\"", b"{\"a\":", b"{\"a\":1,", b"[1,", b"", b" ", b"\xef\xbb\xbf{}", b"{}", b"[]", b"null", b"0", b'"x"', b"{\"a\":-}", b"[-]", b"{,}", b"[,]",
+            b"{\"a\" 1}", b"\x00", b"{\"version\":\"1\"}"]
+
+
+def upd_validate(chk, lines, label, flavours=("plain", "asan")):
+    wd = vlib.workdir("upd-%s-%s" % (chk.pid, label))
+    script = os.path.join(wd, "script.txt")
+    write_lines(script, lines)
+    prev = None
+    for flav in flavours:
+        trace = os.path.join(wd, "trace-%s.ndjson" % flav)
+        events = run_driver("updatejson", flav, script, trace, timeout=1500)
+        if len(events) != len(lines):
+            raise vlib.MachineryError("updatejson driver (%s) produced %d events for %d cases" % (flav, len(events), len(lines)))
+        if prev is not None and events == prev:
+            chk.cov["asan_identical_runs"] = chk.cov.get("asan_identical_runs", 0) + len(events)
+            continue
+        prev = events
+        res = vlib.validate("UpdateJsonTrace", trace, timeout=1500)
+        chk.add_traces(len(events), len(events), res, "%s/%s" % (label, flav))
+        for e in events:
+            if e["op"] == "died":
+                chk.nontrivial("upd:died:" + e["how"] + ":" + e.get("kind", e.get("src", "")))
+            elif e.get("ok"):
+                chk.nontrivial("upd:ok:" + hashlib.sha1(bytes(e.get("doc", [])) + str(e.get("n")).encode()).hexdigest()[:16])
+            elif e.get("n", 0) > 0:
+                chk.nontrivial("upd:err:" + e.get("err", "")[:40] + ":" + str(min(e["n"], 64)))
+        okev = [e for e in events if e["op"] == "parse" and e.get("ok") and "doc" in e]
+        if okev:
+            chk.sample({"source": label, "document": bytes(okev[-1]["doc"]).decode("utf-8", "replace")[:400],
+                        "reported_version_hex": HEX(bytes(okev[-1]["fields"]["version"]))})
+        report_events(chk, res, events, "%s, %s flavour" % (label, flav), upd_event_to_script)
+        log("[trace] updatejson %s/%s: %d calls, %d succeeded (%d compared with the reference), %d died, %d clause failures" % (
+            label, flav, len(events), res["stats"]["ok"], res["stats"]["compared"], sum(1 for e in events if e["op"] == "died"), len(res.get("viol", []))))
+
+
+def upd_run(chk):
+    thorough = chk.tier == "thorough"
+    chk.level = "exploration"
+    r, hists = dump_states("UpdateJson", "MC_UpdateJson.cfg", workers=8, timeout=1500)
+    chk.add_model("UpdateJson: document builder x code-shaped parse_update_metadata model vs RFC 8259 reference", r,
+                  "invariants C38_DesignMeetsContract, RefDecodesIntended, RefValidity, DesignTotalOnCases; every state is one document")
+    adv_parallel_mc("UpdateJson", [("MC_UpdateJson_dev_splitsurrogates.cfg", "C38_DesignMeetsContract"), ("MC_UpdateJson_reach_pair.cfg", "Reach_SuccessWithPair"),
+                                   ("MC_UpdateJson_reach_cutpair.cfg", "Reach_CutInsidePair")])
+    lines = []
+    for h in hists:
+        src = "tlc:%s/%s/%s/%s/%s/%s%s/%s" % (h["kind"], h["slot"], h["variant"], h["field"], h["disp"], h["extra"], h["depth"], h["cut"])
+        lines.append("parse doc=%s src=%s" % (HEX(bytes(h["bytes"])), src))
+    log("[gen] %d TLC documents" % len(lines))
+    for i, d in enumerate(UPD_EDGE):
+        lines.append("parse doc=%s src=edge%d" % (HEX(d), i))
+    upd_validate(chk, lines, "tlc-documents")
+    deep = []
+    for kind in ("arr", "obj", "arr-open", "obj-open", "extra-arr", "extra-obj"):
+        for d in ((10, 100, 127, 128, 129, 1000, 100000) if thorough else (100, 1000, 100000)):
+            deep.append("gen kind=%s depth=%d src=deep-%s-%d" % (kind, d, kind, d))
+    upd_validate(chk, deep, "deep-nesting", flavours=("plain", "asan") if thorough else ("plain",))
+    rnd = ["parse doc=%s src=rnd%d" % (HEX(upd_random_doc(chk.rng)), i) for i in range(6000 if thorough else 700)]
+    upd_validate(chk, rnd, "random")
+    chk.cov["rule"] = ("documents = every state of spec/UpdateJson.tla (base document; 27 string variants - every escape, surrogate pairs incl. min/max, raw UTF-8 - "
+                       "in 6 slots; each field missing / number / null / array / object / true; nested extra members; white space; every prefix of the "
+                       "base document) + hand-listed truncated tokens + nesting depths 10^2..10^5 (arrays/objects, closed/open, top-level/inside a valid "
+                       "document) + seeded random documents (random escapes, shuffled members, mutations); non-trivial = a successful parse (distinct "
+                       "by document), a distinct (error message, length class) or a distinct way of dying")
+    chk.assumptions += ["documents sit in exact-size heap blocks; AddressSanitizer/UBSan monitor reads outside them",
+                        "cases run in a child process on a thread with an 8 MiB stack, 5 s watchdog per case: stack overflow / crash / hang are observations",
+                        "lone surrogates, duplicate keys, invalid JSON accepted leniently and absent fields are not judged (outside the statement)",
+                        "documents > 3000 bytes (deep nesting) are judged for totality only"]
+
+
+def upd_replay(chk, path):
+    chk.level = "exploration"
+    upd_validate(chk, [upd_event_to_script(e) for e in replay_events(path)], "replay")
